@@ -212,15 +212,18 @@ def braceChildren (src : Str) : Str := Svs.render (braceParts src)
 /-! ## Exceptions of the constructor
 
     `int(text)` refuses more than 4300 digits (`sys.int_max_str_digits`, leading zeros count);
-    `float(text)` silently gives `inf` from `2^1024 - 2^970` on, and `str(self.string)` then fails in
-    `format_float` (`round(inf)`); `float(Fraction)` (used for denominators that are not shown as fractions)
+    `float(text)` silently gives `inf` from `2^1024 - 2^970` on (shown as `inf`; it used to make `str(self.string)` fail in
+    `format_float`, repaired in /repo); `float(Fraction)` (used for denominators that are not shown as fractions)
     raises for the same values; `str(int)` refuses more than 4300 digits. -/
 
 inductive BraceErr where
   /-- `ValueError: Exceeds the limit (4300 digits) for integer string conversion` -/
   | valueError
-  /-- `OverflowError` -/
+  /-- `OverflowError` (`float(Fraction)` of a value beyond the float range, for a denominator that is not shown as a fraction) -/
   | overflowError
+  /-- no exception (since the repair of `format_float`): the string holds a float infinity, shown as `inf` - outside the model's
+      numbers (exact rationals), so reported as an outcome of its own -/
+  | infiniteFloat
 deriving DecidableEq, Repr
 
 def intMaxStrDigits : Nat := 4300
@@ -244,7 +247,7 @@ def Brace.capsIntTooLong (c : Re.Caps) : Bool :=
 /-- does `format_number` raise on this (non-negative) number, and what? -/
 def renderNumErr (n : Num) : Option BraceErr :=
   match n.kind with
-  | .flt => if (floatInfThreshold : Rat) ≤ n.val then some .overflowError else none
+  | .flt => if (floatInfThreshold : Rat) ≤ n.val then some .infiniteFloat else none
   | .int => if intMaxStrDigits < (natDigits n.val.num.natAbs).length then some .valueError else none
   | .frac =>
     if n.val.den == 1 then
@@ -261,6 +264,12 @@ def renderSvsErr : SVS → Option BraceErr
   | .text _ :: rest => renderSvsErr rest
   | .num n :: rest =>
     match renderNumErr n with
+    | some .infiniteFloat =>
+      -- showing `inf` raises nothing: a later part may still raise; otherwise the outcome is "holds an infinity"
+      (match renderSvsErr rest with
+       | some .valueError => some .valueError
+       | some .overflowError => some .overflowError
+       | _ => some .infiniteFloat)
     | some e => some e
     | none => renderSvsErr rest
 
